@@ -112,7 +112,7 @@ def families(eng, tier, seed):
         if ips: dirs += ["derive_rec %s => Rr" % "::".join(ips[0]), "attrtok_rec %s => rr(1)" % "::".join(ips[0]), "derive_for %s => Ss" % "::".join(ips[-1]), "derive_for %s => Sa" % "::".join(ips[-1])]
         fams.append(gen_twice("reversed-%s" % n, r, dirs, "reversed", dedup=multi))
         if n == "versions": fams.append(gen_twice("reversed-versions-stripped", vs, dirs, "reversed", dedup=True))
-        if n == "versions_hdr": fams.append(gen_twice("reversed-versions-hdr-stripped", strip_segment(r, ("h1", "h2")), dirs, "reversed", dedup=True))
+        if n in ("versions_hdr", "versions_hdr_mirror"): fams.append(gen_twice("reversed-%s-stripped" % n, strip_segment(r, ("h1", "h2")), dirs, "reversed", dedup=True))
     # registration order: all permutations of commuting directives
     k = 4 if tier == "quick" else 5
     dirs = ["derive_all Db", "derive_all Da", "attrtok_all serde(b)", "derive_rec %s => R1" % p("B1"), "attrtok_for %s => zz" % p("Inner")][:k]
